@@ -199,6 +199,6 @@ def view(case):
 
 def campaigns(tier: str) -> List[Campaign]:
     return [Campaign("idle", c06_case(), check, quick=400, thorough=24000, quick_shards=8,
-                     required_classes={"host_wait": 0.2, "kernel_wait": 0.15, "other": 0.15, "activity_without_launch": 0.05,
+                     required_classes={"unrounded_fractional_times": 0.05, "host_wait": 0.2, "kernel_wait": 0.15, "other": 0.15, "activity_without_launch": 0.05,
                                        "F10_pattern": 0.02, "first_entry_not_earliest": 0.1, "trimmed_by_last_profiler_step": 0.08},
                      sample_view=view)]
